@@ -5,6 +5,8 @@ package main
 import (
 	"fmt"
 	"go/ast"
+	"go/token"
+	"strconv"
 	"strings"
 )
 
@@ -183,6 +185,28 @@ func (e *Ev) evGhostCall(x *ast.CallExpr) Val {
 		return VBool{fmt.Sprintf("(exists ((%s Int)) %s)", kn, sAnd(rng, body))}
 	case "same":
 		return VBool{e.sameVal(arg(0), arg(1), x)}
+	case "identical":
+		// identical(a, b): every component equal, including the representation of strings and lists
+		// (used to name a callee's result: the result IS the named value)
+		return VBool{e.identicalVal(arg(0), arg(1), x)}
+	case "namedlike":
+		// namedlike(proto, "NAME", args...): a value shaped like proto whose every component is an
+		// uninterpreted function NAME_<component> of the arguments (result naming for callees whose
+		// result is a struct; presumes the result is a function of the listed arguments)
+		if len(x.Args) < 2 {
+			e.unsupp(x, "namedlike(proto, \"NAME\", args...)")
+		}
+		bl, ok := x.Args[1].(*ast.BasicLit)
+		if !ok || bl.Kind != token.STRING {
+			e.unsupp(x, "namedlike needs the name as a string literal")
+		}
+		nm, _ := strconv.Unquote(bl.Value)
+		var ats, asorts []string
+		for i := 2; i < len(x.Args); i++ {
+			e.flattenArg(arg(i), &ats, &asorts, x)
+		}
+		fx.trusted["result naming "+nm+": the named result is a function of the listed arguments (presumes determinism and independence of hidden state)"] = true
+		return e.namedShape(arg(0), "nm_"+sanitizeIdent(nm), ats, asorts, x)
 	case "sameview":
 		a, ok1 := arg(0).(VStr)
 		b, ok2 := arg(1).(VStr)
@@ -616,6 +640,100 @@ func (p *Prog) specFuncDef(sf *SpecFunc) (def string, uses map[string]bool, lang
 }
 
 // sameVal: structural equality (strings by contents, []string by identity of the slice value).
+func (e *Ev) identicalVal(a, b Val, n ast.Node) Term {
+	switch x := a.(type) {
+	case VStr:
+		if y, ok := b.(VStr); ok {
+			return sAnd(sEq(x.B, y.B), sEq(x.O, y.O), sEq(x.L, y.L))
+		}
+	case VStrs:
+		if y, ok := b.(VStrs); ok {
+			return sAnd(sEq(x.N, y.N), sEq(x.B, y.B), sEq(x.O, y.O), sEq(x.L, y.L))
+		}
+	case VStruct:
+		if y, ok := b.(VStruct); ok {
+			var cs []Term
+			for _, f := range x.Names {
+				cs = append(cs, e.identicalVal(x.F[f], y.F[f], n))
+			}
+			return sAnd(cs...)
+		}
+	}
+	return e.sameVal(a, b, n)
+}
+
+// flattenArg appends the SMT terms (and sorts) that stand for a value used as an argument of a naming
+// function: strings by content, structs field by field.
+func (e *Ev) flattenArg(v Val, ts, sorts *[]string, n ast.Node) {
+	switch a := v.(type) {
+	case VInt:
+		*ts, *sorts = append(*ts, a.T), append(*sorts, sortInt)
+	case VBool:
+		*ts, *sorts = append(*ts, a.T), append(*sorts, sortBool)
+	case VErr:
+		*ts, *sorts = append(*ts, a.T), append(*sorts, sortInt)
+	case VRef:
+		*ts, *sorts = append(*ts, a.T), append(*sorts, sortInt)
+	case VStr:
+		e.fx.useSeq = true
+		*ts, *sorts = append(*ts, e.fx.seqOf(a)), append(*sorts, sortSeq)
+	case VSeq:
+		*ts, *sorts = append(*ts, a.T), append(*sorts, sortSeq)
+	case VStrs:
+		*ts = append(*ts, a.B, a.O, a.L, a.N)
+		*sorts = append(*sorts, sortArrArr, sortArr, sortArr, sortInt)
+	case VStruct:
+		for _, f := range a.Names {
+			e.flattenArg(a.F[f], ts, sorts, n)
+		}
+	case VNil:
+		*ts, *sorts = append(*ts, "0"), append(*sorts, sortInt)
+	default:
+		e.unsupp(n, "naming function argument of kind %T", v)
+	}
+}
+
+// namedShape builds a value shaped like proto out of applications of per-component functions.
+func (e *Ev) namedShape(proto Val, fname string, ats, asorts []string, n ast.Node) Val {
+	fx := e.fx
+	app := func(suffix, sort string) Term {
+		f := fname + suffix
+		if fx.namedFuns == nil {
+			fx.namedFuns = map[string]bool{}
+		}
+		if !fx.namedFuns[f] {
+			fx.namedFuns[f] = true
+			fx.emit(fmt.Sprintf("(declare-fun %s (%s) %s)", f, strings.Join(asorts, " "), sort))
+		}
+		if len(ats) == 0 {
+			return f
+		}
+		return "(" + f + " " + strings.Join(ats, " ") + ")"
+	}
+	switch p := proto.(type) {
+	case VInt:
+		return VInt{app("", sortInt)}
+	case VBool:
+		return VBool{app("", sortBool)}
+	case VErr:
+		return VErr{app("", sortInt)}
+	case VRef:
+		return VRef{app("", sortInt), p.Elem}
+	case VStr:
+		return VStr{B: app("_b", sortArr), O: app("_o", sortInt), L: app("_l", sortInt)}
+	case VStrs:
+		return VStrs{B: app("_sb", sortArrArr), O: app("_so", sortArr), L: app("_sl", sortArr), N: app("_n", sortInt), Wrap: p.Wrap, WrapField: p.WrapField}
+	case VStruct:
+		out := VStruct{TName: p.TName, Names: p.Names, F: map[string]Val{}}
+		for _, f := range p.Names {
+			out.F[f] = e.namedShape(p.F[f], fname+"_"+f, ats, asorts, n)
+		}
+		return out
+	}
+	e.unsupp(n, "naming function result of kind %T", proto)
+	return nil
+}
+
 func (e *Ev) sameVal(a, b Val, n ast.Node) Term {
 	switch x := a.(type) {
 	case VInt:
